@@ -578,6 +578,25 @@ def x_manifest_row(tree, report):
     return keys
 
 
+def x_to_picklist(tree, cls_name, ctor, report):
+    """`to_picklist` of a manifest class: the derived picklist either keeps the `manifest` preprocessing
+    ((identifier, md5[:8])) or overrides it with the identity (full (name, md5)).  -> exact : bool"""
+    what = f"{cls_name}.to_picklist"
+    fn = _fn(tree, "to_picklist", cls_name)
+    body = [_src(st) for st in fn.body if not _is_docstring(st)]
+    head = f"pl = {ctor}('manifest')"
+    pick = "pl.pickset = {pl._get_value_for_manifest_row(row) for row in self.rows}"
+    if body == [head, pick, "return pl"]:
+        exact = False
+    elif body == [head, "pl.preprocess_fn = lambda x: x", pick, "return pl"]:
+        exact = True
+    else:
+        raise Unrecognised(what, "body is neither of the two modelled shapes: " + repr(body)[:300])
+    report["inputs"][what] = _src(fn)
+    report["outputs"].setdefault("toPicklistExact", {})[cls_name] = exact
+    return exact
+
+
 def lean_str_list(xs):
     return "[" + ", ".join('"' + x + '"' for x in xs) + "]"
 
@@ -592,6 +611,8 @@ def x_select(report):
     sql, hard = x_sql_select(t_sql, report)
     table, tup, sig_attr, row_key, asserts = x_picklist(t_pl, report)
     keys = x_manifest_row(t_mf, report)
+    tp_csv = x_to_picklist(t_mf, "CollectionManifest", "picklist.SignaturePicklist", report)
+    tp_sql = x_to_picklist(t_sql, "SqliteCollectionManifest", "SignaturePicklist", report)
 
     def pairs(cl):
         return "[" + ",\n   ".join(f"({g}, {c})" for g, c in cl) + "]"
@@ -628,6 +649,10 @@ def x_select(report):
                + fn("rowKeyOf", "PickSrc", row_key, lambda v: "." + v))
     out.append(f"/-- `_get_value_for_manifest_row` still contains `assert q` -/\n"
                f"def rowValueAsserts : Bool := {'true' if asserts else 'false'}\n")
+    out.append("/-- `to_picklist()` overrides the preprocessing with the identity: the derived picklist compares the full\n"
+               "    (name, md5) of a row instead of (identifier, md5[:8]) -- per manifest class -/\n"
+               f"def toPicklistExactCsv : Bool := {'true' if tp_csv else 'false'}\n"
+               f"def toPicklistExactSql : Bool := {'true' if tp_sql else 'false'}\n")
     out.append(f"/-- `BaseCollectionManifest.required_keys` -/\ndef manifestRequiredKeys : List String := {lean_str_list(keys)}\n")
     return "\n".join(out)
 
